@@ -91,6 +91,10 @@ class Grammar:
                     for k in kinds:
                         out.append((k, then, None))
                 if self.else_branch:
+                    # empty then-branch, everything in the else branch (the passes treat the two regions asymmetrically)
+                    for els in self.seqs(size - 1, nest - 1, loop_depth, nonempty=True):
+                        for k in kinds:
+                            out.append((k, (), els))
                     for nthen in range(1, size - 1):
                         nelse = size - 1 - nthen
                         for then in self.seqs(nthen, nest - 1, loop_depth, nonempty=True):
